@@ -8,7 +8,6 @@ EXPLANATION = ('Loop summaries of every run loop compared with their specificati
                'iterations with one step each, row k, buffer [n_collect, n_chains, dim] permuted [1,0,2]); NUTSChain::run (row 0 = position at entry, loop 1..n_collect+n_discard, '
                'guard m >= n_discard, row m - n_discard => row r after n_discard + r transitions); NUTS::run (in-place order-preserving map, stack on dim 0). '
                'Step receivers are reached through &mut places without an intervening clone (continuation).')
-FLOORS = {'obligations': 87}   # counted on the reference tree; fewer instantiated obligations is reported, never passed silently
 TECHNIQUE = 'loop summaries (trip counts, guards, affine row indices, carried places) + value-flow normal forms'
 STEP = 'core::MarkovChain::step'
 
